@@ -2072,3 +2072,7 @@ mod tests {
         assert!(iter.next().is_none());
     }
 }
+
+#[cfg(any(kani, verif_replay))]
+#[path = "/verif/kani/tlv_read.rs"]
+pub(crate) mod verif_kani_tlv_read;
